@@ -125,9 +125,8 @@ Proof.
   rewrite filter_flat_map, map_flat_map.
   apply eq_trans with (flat_map (fun s => if Nat.eqb (placed place s r) node then [s] else []) (seq 0 (List.length place))).
   - apply flat_map_ext'. intros s _. cbv beta.
-    rewrite (matching_one_series place replicas node r s Hnd).
     assert (E : existsb (Nat.eqb r) replicas = true) by (apply existsb_exists; exists r; split; [exact Hin|apply Nat.eqb_refl]).
-    rewrite E. reflexivity.
+    pose proof (matching_one_series place replicas node r s Hnd) as M. rewrite E in M. cbn [andb] in M. exact M.
   - apply flat_map_if_filter.
 Qed.
 
@@ -215,7 +214,9 @@ Proof.
   { intro d. unfold F. rewrite filter_In, distribute_keys_in. unfold hits. split.
     - intros [[s' [r [_ [Hr ->]]]] Hh]. cbn [fst snd] in Hh. apply Nat.eqb_eq in Hh. exists r. split; [exact Hr|congruence].
     - intros [r [Hr ->]]. split; [exists s, r; auto|]. cbn [fst snd]. apply Nat.eqb_refl. }
-  rewrite <- (map_length snd F). apply Permutation_length. apply NoDup_Permutation.
+  change (List.length F = List.length replicas).
+  transitivity (List.length (map snd F)); [symmetry; apply map_length|].
+  apply Permutation_length. apply NoDup_Permutation.
   - apply NoDup_map_inj_in; [apply NoDup_filter, distribute_keys_nodup|].
     intros x y Hx Hy E. apply HF in Hx as [r [_ ->]]. apply HF in Hy as [r' [_ ->]]. cbn [snd] in E. subst. reflexivity.
   - exact Hnd.
